@@ -351,6 +351,81 @@ struct Run
             }
         }
         c.count("equality_pairs", objs.size() * objs.size());
+        // equality follows in-place edits: an object that has already been compared is edited through a typed setter (the idiom of
+        // the repository's example) and must then equal an independently built, never compared object with the same edit,
+        // and differ from its unedited twin; copies of it behave the same
+        for (size_t i = 0; i < objs.size(); ++i)
+        {
+            if (!pool[i].hasPayload || pool[i].bytes.empty())
+                continue;
+            Packet& a = objs[i];               // took part in all the comparisons above
+            Packet unedited = pool[i].make();  // never compared
+            Packet fresh = pool[i].make();
+            const char* what = editInPlace(a);
+            editInPlace(fresh);
+            ++c.evaluations;
+            c.count("equality_after_in_place_edit_checks");
+            Packet copyOfA(a);
+            Packet assigned;
+            assigned = a;
+            if (!(a == fresh) || !(fresh == a) || (a != fresh) || !(copyOfA == fresh) || !(assigned == fresh))
+                fail("equality-stale-after-in-place-edit", std::string("after ") + what + " on an object that had been compared before, it (or a copy of it) compares unequal to an independently built object with the same content", pool[i], pool[i]);
+            if ((a == unedited) || (unedited == a) || !(a != unedited))
+                fail("equality-stale-after-in-place-edit", std::string("after ") + what + " the object still compares equal to its unedited twin", pool[i], pool[i]);
+            if (snapPacket(a, true) != snapPacket(fresh, true))
+                fail("in-place-edit-differs-between-compared-and-fresh-object", what, pool[i], pool[i]);
+        }
+    }
+
+    // one in-place change of the payload content that does not go through setData / setPayload
+    static const char* editInPlace(Packet& p)
+    {
+        using namespace ASAM::CMP;
+        Payload& pl = p.getPayload();
+        if (pl.isValid() && pl.getLength() >= 42)  // (longer than the fixed part of every typed class)
+            switch (pl.getType().getType())
+            {
+                case PayloadType::can:
+                case PayloadType::canFd:
+                {
+                    auto& t = static_cast<CanPayloadBase&>(pl);
+                    t.setId(t.getId() ^ 1u);
+                    return "CanPayloadBase::setId";
+                }
+                case PayloadType::lin:
+                {
+                    auto& t = static_cast<LinPayload&>(pl);
+                    t.setChecksum(static_cast<uint8_t>(t.getChecksum() ^ 1u));
+                    return "LinPayload::setChecksum";
+                }
+                case PayloadType::ethernet:
+                {
+                    auto& t = static_cast<EthernetPayload&>(pl);
+                    t.setFlags(static_cast<uint16_t>(t.getFlags() ^ 0x0080u));
+                    return "EthernetPayload::setFlags";
+                }
+                case PayloadType::analog:
+                {
+                    auto& t = static_cast<AnalogPayload&>(pl);
+                    t.setFlags(static_cast<uint16_t>(t.getFlags() ^ 0x0001u));
+                    return "AnalogPayload::setFlags";
+                }
+                case PayloadType::cmStatMsg:
+                {
+                    auto& t = static_cast<CaptureModulePayload&>(pl);
+                    t.setUptime(t.getUptime() ^ 1u);
+                    return "CaptureModulePayload::setUptime";
+                }
+                case PayloadType::ifStatMsg:
+                {
+                    auto& t = static_cast<InterfacePayload&>(pl);
+                    t.setMsgTotalRx(t.getMsgTotalRx() ^ 1u);
+                    return "InterfacePayload::setMsgTotalRx";
+                }
+                default: break;
+            }
+        pl.setRawPayloadType(static_cast<uint8_t>(pl.getRawPayloadType() ^ 0x40));
+        return "Payload::setRawPayloadType";
     }
 
     // Payload, typed payloads and TECMP::Payload as values
